@@ -150,10 +150,26 @@ PROPS = {
         "technique": "Lean 4 arithmetic proofs (omega over floor/ceil division) + differential correspondence on real transactions",
         "explanation": "Floors, VerifyFee and the gasUsed/refund arithmetic modelled and proved; real transfers, storage set/clear (refund), reverts and out-of-gas runs are delivered and their gasUsed, sender payment and collector gain compared with the model and with independent big.Int monitors.",
     },
+    "C08": {
+        "id": "C08",
+        "lean_modules": ["HaqqModel.Props.C08", "HaqqModel.Props.C08Model"],
+        "level": "proof",
+        "trusted_base": COMMON_TRUST + [
+            "modelled, not verified: the SDK bank keeper's subUnlockedCoins guard (balance − LockedCoins ≥ amount on every account debit), DelegateCoins/UndelegateCoins and the vesting account's delegation tracking, the EVM's balance write-back through the same bank primitives; that each listed path reaches one of the two guards is established by the correspondence run, not by the model",
+        ],
+        "assumptions": [
+            "the account satisfies Validate() (C09) and DelegatedVesting is empty (Haqq's TrackDelegation only grows DelegatedFree and addGrant resets both)",
+            "stated for spend attempts by the account; slashing and a funder's merge are not spends",
+        ],
+        "level_text": "Machine-checked proofs (Lean 4): LockedCoins equals max(original − unlockedVested − trackedDelegated, unvested) for every valid account, block time and denomination in use, it never grows with time, a debit that passes the bank guard leaves at least the locked amount, a delegation that passes the staking wrapper's guard leaves at least the unvested amount, and balance ≥ locked is an invariant of every history of spends, receipts, delegations, undelegations and time steps; every spend path of the list is attempted around the spendable boundary on the real application and compared with the model's accept/refuse verdict.",
+        "level_note": "Trusted: Lean kernel; correspondence harness; SDK bank/staking internals modelled as guards.",
+        "technique": "Lean 4 proofs over the C09 schedule model (omega after unfolding) + history invariant + differential correspondence per spend path",
+        "explanation": "Guard algebra proved on the vesting model; bank send, multi-send, fee payment, DAO fund, governance deposit, delegation by message compared op by op with the model at amounts spendable±1; EVM value transfer, precompile delegation and undelegation monitored with the property's own formula.",
+    },
 }
 
 # properties not (yet) claimed, each with a reason; entries disappear as checks are built
 NOT_APPLICABLE = {pid: "check not built yet in this session (planned: see DESIGN.md §5)" for pid in
-                  ["C01", "C02", "C03", "C04", "C05", "C08", "C10", "C15", "C16", "C19", "C20"]}
+                  ["C01", "C02", "C03", "C04", "C05", "C10", "C15", "C16", "C19", "C20"]}
 
 HOOK_COMMITS = []
